@@ -92,6 +92,10 @@ def init (peerId : Cid) (rotate : Bool) : State :=
               status := if rotate then .inUsePendingNewConnectionId else .inUse }],
     retirePriorTo := 0, rotateHandshake := rotate, activeCid := peerId, events := [.hsPeer 0 peerId] }
 
+/-- "Upon receipt of an increased Retire Prior To field …": an active id below it becomes `PendingRetirement` -/
+def IdInfo.retireIfReady (i : IdInfo) (rpt : Nat) : IdInfo :=
+  if i.isRetireReady rpt then { i with status := .pendingRetirement } else i
+
 /-- result of the loop over the registered ids in `on_new_connection_id` -/
 structure Scan where
   ids : List IdInfo
@@ -108,14 +112,13 @@ def scan (rpt : Nat) (newId : Cid) (token : Token) (seq : Nat) :
     match i.validateNewConnectionId newId token seq with
     | .error e => .error e
     | .ok dup =>
-      let i' := if i.isRetireReady rpt then { i with status := .pendingRetirement } else i
       match scan rpt newId token seq rest with
       | .error e => .error e
       | .ok r =>
-        .ok { ids := i' :: r.ids,
-              activeCount := (if i'.isActive then 1 else 0) + r.activeCount,
+        .ok { ids := i.retireIfReady rpt :: r.ids,
+              activeCount := (if (i.retireIfReady rpt).isActive then 1 else 0) + r.activeCount,
               isDuplicate := dup || r.isDuplicate,
-              pending := (i'.status == .inUsePendingNewConnectionId) || r.pending }
+              pending := ((i.retireIfReady rpt).status == .inUsePendingNewConnectionId) || r.pending }
 
 /-- set the FIRST id that is `InUsePendingNewConnectionId` to `PendingRetirement` -/
 def retirePendingNew : List IdInfo → List IdInfo
@@ -124,30 +127,39 @@ def retirePendingNew : List IdInfo → List IdInfo
     if i.status == .inUsePendingNewConnectionId then { i with status := .pendingRetirement } :: rest
     else i :: retirePendingNew rest
 
+/-- the `PeerIdInfo` built for a non-duplicate frame ("… MUST send a corresponding RETIRE_CONNECTION_ID frame that
+    retires the newly received connection ID" when its sequence number is below Retire Prior To) -/
+def newInfo (newId : Cid) (seq : Nat) (token : Token) (rpt : Nat) : IdInfo :=
+  IdInfo.retireIfReady { id := newId, seq := seq, token := some token, status := .new } rpt
+
+/-- `registered_ids` after pushing the new id: an id waiting for a new connection id is retired when the new one is usable -/
+def newIdsList (r : Scan) (n : IdInfo) : List IdInfo :=
+  (if n.isActive && r.pending then retirePendingNew r.ids else r.ids) ++ [n]
+
+/-- `active_id_count` after pushing the new id -/
+def newActiveCount (r : Scan) (n : IdInfo) : Nat :=
+  if n.isActive then (if r.pending then r.activeCount + 1 - 1 else r.activeCount + 1) else r.activeCount
+
 /-- `PeerIdRegistry::on_new_connection_id`. NOTE (transcribed quirk): the scan mutates `registered_ids`
     in place while validating, so when a later element makes `validate…?` fail, the statuses already
     changed stay changed (the connection is closed with the error anyway). The model returns the state
     unchanged on error. -/
 def registryOnNewConnectionId (s : State) (newId : Cid) (seq rpt : Nat) (token : Token) : Except Err State :=
-  let rpt' := max s.retirePriorTo rpt
-  match scan rpt' newId token seq s.ids with
+  match scan (max s.retirePriorTo rpt) newId token seq s.ids with
   | .error e => .error e
   | .ok r =>
     if !r.isDuplicate then
-      let n0 : IdInfo := { id := newId, seq := seq, token := some token, status := .new }
-      let n := if n0.isRetireReady rpt' then { n0 with status := .pendingRetirement } else n0
-      let (ids, active) :=
-        if n.isActive then
-          if r.pending then (retirePendingNew r.ids, r.activeCount + 1 - 1) else (r.ids, r.activeCount + 1)
-        else (r.ids, r.activeCount)
-      let ids := ids ++ [n]
-      if active > activeConnectionIdLimit then .error .exceededActiveConnectionIdLimit
-      else if ids.length - active > retiredConnectionIdLimit then .error .exceededRetiredConnectionIdLimit
-      else .ok { s with ids := ids, retirePriorTo := rpt',
+      if newActiveCount r (newInfo newId seq token (max s.retirePriorTo rpt)) > activeConnectionIdLimit then
+        .error .exceededActiveConnectionIdLimit
+      else if (newIdsList r (newInfo newId seq token (max s.retirePriorTo rpt))).length
+                - newActiveCount r (newInfo newId seq token (max s.retirePriorTo rpt)) > retiredConnectionIdLimit then
+        .error .exceededRetiredConnectionIdLimit
+      else .ok { s with ids := newIdsList r (newInfo newId seq token (max s.retirePriorTo rpt)),
+                        retirePriorTo := max s.retirePriorTo rpt,
                         events := s.events ++ [.rxNcid { seq := seq, rpt := rpt, cid := newId, token := token }] }
     else
       if r.ids.length - r.activeCount > retiredConnectionIdLimit then .error .exceededRetiredConnectionIdLimit
-      else .ok { s with ids := r.ids, retirePriorTo := rpt',
+      else .ok { s with ids := r.ids, retirePriorTo := max s.retirePriorTo rpt,
                         events := s.events ++ [.rxNcid { seq := seq, rpt := rpt, cid := newId, token := token }] }
 
 /-- `is_active(peer_id)` -/
@@ -198,36 +210,35 @@ def IdInfo.transmissionInterest (i : IdInfo) : Interest :=
   | _ => .none
 
 /-- constraint of the write context: 0 = none, 1 = retransmission only, 2 = congestion limited, 3 = amplification limited -/
-def Interest.canTransmit : Interest → Nat → Bool
-  | _, 3 => false
-  | .lostData, c => c == 0 || c == 1
-  | .newData, c => c == 0
-  | .none, _ => false
+def Interest.canTransmit (i : Interest) (c : Nat) : Bool :=
+  if c == 3 then false
+  else match i with
+    | .lostData => c == 0 || c == 1
+    | .newData => c == 0
+    | .none => false
 
-/-- the loop of `PeerIdRegistry::on_transmit` (packets of the active path: destination = `dcid`) -/
-def transmitLoop (dcid : Cid) (c : Nat) (pn : Nat) : List IdInfo → List Bool → List IdInfo × List Ev
+/-- the loop of `PeerIdRegistry::on_transmit` (packets of the active path: destination = `dcid`); `room` = how many
+    more RETIRE_CONNECTION_ID frames fit into packet `pn` -/
+def transmitLoop (dcid : Cid) (c : Nat) (pn : Nat) : List IdInfo → Nat → List IdInfo × List Ev
   | [], _ => ([], [])
-  | i :: rest, writes =>
+  | i :: rest, room =>
     if i.transmissionInterest.canTransmit c then
-      match writes with
-      | true :: ws =>
-        let (r, ev) := transmitLoop dcid c pn rest ws
-        ({ i with status := .pendingAcknowledgement pn } :: r, .txRetire i.seq (some dcid) :: ev)
-      | _ :: ws =>
-        let (r, ev) := transmitLoop dcid c pn rest ws
-        (i :: r, ev)
-      | [] =>
-        let (r, ev) := transmitLoop dcid c pn rest []
-        (i :: r, ev)
+      match room with
+      | r + 1 =>
+        let (ids, ev) := transmitLoop dcid c pn rest r
+        ({ i with status := .pendingAcknowledgement pn } :: ids, .txRetire i.seq (some dcid) :: ev)
+      | 0 =>
+        let (ids, ev) := transmitLoop dcid c pn rest 0
+        (i :: ids, ev)
     else
-      let (r, ev) := transmitLoop dcid c pn rest writes
-      (i :: r, ev)
+      let (ids, ev) := transmitLoop dcid c pn rest room
+      (i :: ids, ev)
 
 /-- `on_transmit` (the registry-level interest gate only skips the loop when no id can transmit, which the
     loop reproduces) -/
-def onTransmit (s : State) (c pn : Nat) (writes : List Bool) : State :=
-  let (ids, ev) := transmitLoop s.activeCid c pn s.ids writes
-  { s with ids := ids, events := s.events ++ ev }
+def onTransmit (s : State) (c pn : Nat) (room : Nat) : State :=
+  { s with ids := (transmitLoop s.activeCid c pn s.ids room).1,
+           events := s.events ++ (transmitLoop s.activeCid c pn s.ids room).2 }
 
 /-- `on_packet_ack`: acknowledged retirements are forgotten -/
 def onPacketAck (s : State) (set : List Nat) : State :=
@@ -246,7 +257,7 @@ def onPacketLoss (s : State) (set : List Nat) : State :=
 
 inductive Op where
   | onNewConnectionId (id : Cid) (seq rpt : Nat) (token : Token)
-  | onTransmit (c pn : Nat) (writes : List Bool)
+  | onTransmit (c pn : Nat) (room : Nat)
   | onPacketAck (set : List Nat)
   | onPacketLoss (set : List Nat)
   | updateActivePath (pathCid : Cid)
